@@ -81,6 +81,7 @@ type Server struct {
 	leaderSub          *nats.Subscription
 	recoveryStarted    bool
 	latestRecoveredLog *raft.Log
+	recoveryMu         sync.Mutex
 	mu                 sync.RWMutex
 	shutdown           bool
 	running            bool
@@ -219,6 +220,12 @@ func (s *Server) Start() (err error) {
 
 	if err := s.startAPIServer(); err != nil {
 		return errors.Wrap(err, "failed to start API server")
+	}
+
+	// Start what was restored from a Raft snapshot if no operation follows the
+	// snapshot in the log, since nothing will be replayed then.
+	if err := s.startRestoredWithoutReplay(raftNode); err != nil {
+		return errors.Wrap(err, "failed to start streams restored from snapshot")
 	}
 
 	s.startRaftLeadershipLoop(raftNode)
